@@ -27,7 +27,7 @@ structure LConsistent (s : St) : Prop where
     RealsLike c.reals (localExp s.disk pm n)
   wh : ∀ p m, s.mem p = some m → m.whiteout = headWhiteout m.reals
   kidsLoaded : ∀ p m, s.mem p = some m → m.loaded = true → ∀ n,
-    (n ∈ m.kids → localExp s.disk m n ≠ []) ∧ (headStat s.disk (localExp s.disk m n) ≠ none → n ∈ m.kids)
+    (n ∈ m.kids → localExp s.disk m n ≠ []) ∧ (needsNode (localExp s.disk m n) = true → n ∈ m.kids)
   kidsMem : ∀ p m n, s.mem p = some m → n ∈ m.kids → ∃ c, s.mem (n :: p) = some c
   unloaded : ∀ p m, s.mem p = some m → m.loaded = false → m.kids = []
   reach : ∀ n p c, s.mem (n :: p) = some c → ∃ pm, s.mem p = some pm ∧ n ∈ pm.kids
@@ -59,7 +59,6 @@ theorem LConsistent.toConsistent {s : St} (h : LConsistent s) : Consistent s := 
   · intro p m hm hl n
     have := h.kidsLoaded p m hm hl n
     rw [localExp_eq_exp (h.reals p m hm)] at this
-    rw [specStat_eq]
     exact this
 
 theorem Consistent.toLocal {s : St} (h : Consistent s) : LConsistent s := by
@@ -70,7 +69,7 @@ theorem Consistent.toLocal {s : St} (h : Consistent s) : LConsistent s := by
     rw [localExp_eq_exp (h.reals pp pm hpm)]
     exact h.reals (n :: pp) c hc
   · intro p m hm hl n
-    rw [localExp_eq_exp (h.reals p m hm), ← specStat_eq]
+    rw [localExp_eq_exp (h.reals p m hm)]
     exact h.kidsLoaded p m hm hl n
 
 /-! ### what the real inodes of a consistent node look like -/
